@@ -83,7 +83,8 @@ def sample_case(kind, R, D, n, timeout=400):
         cl.append(("L_r L_r' = Sigma_r", LLt, S))
         return cl
 
-    return Case(cid, PROP, cfg, declare, fn, claims, timeout=timeout)
+    # covariances are arbitrary (no lower bound on their scale): a sat verdict is also replayed at standard deviations ~1e-4
+    return Case(cid, PROP, cfg, declare, fn, claims, timeout=timeout, replay_scales=(("S_",), [1e-4, 1e-6]))
 
 
 def cases(tier, seed=0):
